@@ -278,7 +278,7 @@ def _standins(vc):
               "tap_pos / line length profiles (with and without neglect_open_switch_branches); a net that carries the ppc of an earlier "
               "power flow with another switching state",
         script="import sys\nfrom replaylib.timeseries_fresh import main, main_divergence, main_more\n"
-               "for f in (main, main_divergence, main_more):\n    try:\n        f()\n    except SystemExit as e:\n        if e.code:\n            raise\n",
+               "from replaylib import run_all\nrun_all(main, main_divergence, main_more)\n",
         timeout=1500))
 
 
